@@ -697,6 +697,44 @@ fn _page_round(size: usize, pagesize: usize) -> usize {
     size + (pagesize - size % pagesize)
 }
 
+#[cfg(dryoc_verif)]
+/// Verification hooks: observers called by the page-aligned allocator.
+pub mod verif {
+    use std::sync::atomic::{AtomicUsize, Ordering};
+
+    /// Observer signature: `(data address, layout size)`.
+    pub type Observer = fn(usize, usize);
+
+    static ALLOC_OBSERVER: AtomicUsize = AtomicUsize::new(0);
+    static RELEASE_OBSERVER: AtomicUsize = AtomicUsize::new(0);
+
+    /// Sets the observer called at the end of `allocate`.
+    pub fn set_alloc_observer(f: Option<Observer>) {
+        ALLOC_OBSERVER.store(f.map(|f| f as usize).unwrap_or(0), Ordering::SeqCst);
+    }
+
+    /// Sets the observer called at the start of `deallocate`.
+    pub fn set_release_observer(f: Option<Observer>) {
+        RELEASE_OBSERVER.store(f.map(|f| f as usize).unwrap_or(0), Ordering::SeqCst);
+    }
+
+    fn call(slot: &AtomicUsize, addr: usize, size: usize) {
+        let f = slot.load(Ordering::SeqCst);
+        if f != 0 {
+            let f: Observer = unsafe { std::mem::transmute(f) };
+            f(addr, size);
+        }
+    }
+
+    pub(super) fn on_alloc(addr: usize, size: usize) {
+        call(&ALLOC_OBSERVER, addr, size);
+    }
+
+    pub(super) fn on_release(addr: usize, size: usize) {
+        call(&RELEASE_OBSERVER, addr, size);
+    }
+}
+
 unsafe impl Allocator for PageAlignedAllocator {
     #[inline]
     fn allocate(&self, layout: Layout) -> Result<ptr::NonNull<[u8]>, AllocError> {
@@ -756,12 +794,18 @@ unsafe impl Allocator for PageAlignedAllocator {
             .map_err(|err| eprintln!("mprotect error = {:?}, in allocator", err))
             .ok();
 
+        #[cfg(dryoc_verif)]
+        verif::on_alloc(slice.as_ptr() as usize, layout.size());
+
         unsafe { Ok(ptr::NonNull::new_unchecked(slice)) }
     }
 
     #[inline]
     unsafe fn deallocate(&self, ptr: ptr::NonNull<u8>, layout: Layout) {
         let pagesize = *PAGESIZE;
+
+        #[cfg(dryoc_verif)]
+        verif::on_release(ptr.as_ptr() as usize, layout.size());
 
         let ptr = ptr.as_ptr().offset(-(pagesize as isize));
 
